@@ -12,7 +12,7 @@ use std::time::{Duration, Instant};
 /// not a crash of the monitor).
 static REGISTRY: Mutex<Vec<Arc<dyn std::any::Any + Send + Sync>>> = Mutex::new(Vec::new());
 
-fn keep<T: std::any::Any + Send + Sync>(x: Arc<T>) -> *mut c_void {
+pub fn keep<T: std::any::Any + Send + Sync>(x: Arc<T>) -> *mut c_void {
     let p = Arc::as_ptr(&x) as *mut c_void;
     REGISTRY.lock().unwrap().push(x);
     p
